@@ -68,6 +68,8 @@ THEOREMS = [
     "Verif.C17.fmt6e_idempotent",
     "Verif.C17.fmt6e_accurate",
     "Verif.C17.roundtrip_twice",
+    "Verif.C17.sumSignal_spec",
+    "Verif.C17.sumSignal_negative_stop_wraps",
 ]
 RULE = (
     "corpus (F4: one single-node track, three delimiters; F8: kbp-calibrated and uncalibrated kymograph saved with "
@@ -469,6 +471,12 @@ def _impl(case, partial):
             raise
         except Exception as e:
             return ["IOError" if isinstance(e, OSError) else errname(e)]
+    if kind == "sample":
+        prep = prepare(case)
+        try:
+            return ["[" + ",".join(str(int(v)) for v in prep["group"][0].sample_from_image(case["w"], correct_origin=case["co"])) + "]"]
+        except Exception as e:
+            return [errname(e)]
     if kind == "hdr":
         prep = prepare(case)
         path = os.path.join(_TMP, "hdr.csv")
@@ -606,6 +614,9 @@ def ops(case):
         return [f"c17.export {ky} {smp} {img} {g}", f"c17.roundtrip {ky} {smp} {img} {g}",
                 f"c17.titles {info['unit']} {smp} {all_md}", f"c17.fileroundtrip {ky} {info['unit']} {smp} {img} {g}",
                 f"c17.roundtrip2 {ky} {smp} {img} {g}"]
+    if kind == "sample":
+        st = prep["state0"][0]
+        return [f"c17.samples {case['w']} {1 if case['co'] else 0} {enc_image(prep['image'])} [" + ",".join(str(int(t)) for t in st["t"]) + "] [" + ",".join(enc_rat(c) for c in st["c"]) + "]"]
     if kind == "hdr":
         rows = "[" + ";".join(",".join(enc_rat(float("%.18e" % x)) for x in r) for r in case["cells"]) + "]"
         v = "N" if case["version"] is None else str(case["version"])
@@ -748,6 +759,15 @@ def oracle(case, ia):
         return oracle_read(case, ia)
     if kind == "hdr":
         return oracle_hdr(case, ia)
+    if kind == "sample":
+        a = split_aux(ia[0])[0]
+        if a.endswith("Error"):
+            return f"photon-counts: sampling a track inside the image raised {a}"
+        prep = prepare(case)
+        st = prep["state0"][0]
+        exp = [window_sum(prep["image"], t, c, case["w"], case["co"]) for t, c in zip(st["t"], st["c"])]
+        got = [int(x) for x in a[1:-1].split(",")] if a != "[]" else []
+        return None if got == exp else f"photon-counts: sampled {got[:8]}, the sum over the {2 * case['w'] + 1} pixels around each node is {exp[:8]}"
     if kind == "prog":
         return oracle_prog(case, ia)
     if kind == "refine":
@@ -1143,6 +1163,8 @@ def nontrivial(case, ia):
         return len(case["rows"]) >= 1
     if kind == "hdr":
         return len(case["cells"]) >= 1
+    if kind == "sample":
+        return len(case["tracks"][0]["t"]) >= 1
     if kind == "prog":
         st = aux.get("states", [])
         return any(x != y for x, y in zip(st, st[1:])) or "Error" in a
@@ -1433,6 +1455,13 @@ def cases(tier, rng):
     for assign in itertools.product([0, 1, 3], repeat=4):
         rows = [[a, n, 1.0 + 0.25 * n, n + 1, 0.5] for n, a in enumerate(assign)]
         yield {"stream": "small-scope", "kind": "read", "k": kk, "rows": rows, "delim": ";", "has_counts": assign[0] == 0, "has_md": assign[1] != 1}
+    # sampled photon counts: a node at every quarter pixel of a 6-pixel line x every width x both pixel origins
+    ks = {"route": "array", "cal": "um", "n_lines": 24, "n_pixels": 6, "img_seed": 9, "px_um": 0.1, "lt": 0.125}
+    grid = [q / 4 for q in range(0, 22)]  # 0 .. 5.25 (pixel centres at integers; the last pixel ends at 5.5)
+    for w in (0, 1, 2, 5):
+        for co in (True, False):
+            cs = safe_coords(grid if co else grid + [5.5, 5.75])
+            yield {"stream": "small-scope", "kind": "sample", "k": ks, "tracks": [{"t": list(range(len(cs))), "c": cs, "md": None, "hw": None}], "w": w, "co": co}
     # header variants: every variant x every delimiter on one three-row file, and on a single-row file
     for variant in HDR_VARIANTS:
         for d in DELIMS:
@@ -1767,6 +1796,7 @@ def extra_coverage(results):
         d[str(key)] = d.get(str(key), 0) + 1
 
     single_row = 0
+    winc = {}
     hdrk = {}
     skipped = {}
     plus_twins = 0
@@ -1786,6 +1816,13 @@ def extra_coverage(results):
                 for e in m.group(1).split(","):
                     if e and e != "-":
                         bump(errs, "prog-step:" + e)
+        if c["kind"] in ("sample", "rt") and c.get("sw" if c["kind"] == "rt" else "w") is not None and c.get("tracks"):
+            w, npx = c["sw"] if c["kind"] == "rt" else c["w"], c["k"]["n_pixels"]
+            off = 0.5 if c["co"] else 0.0
+            for tr in c["tracks"]:
+                for x in tr["c"]:
+                    lo, hi = int(x + off) - w < 0, int(x + off) + w > npx - 1
+                    bump(winc, "clipped-both-sides" if lo and hi else "clipped-at-first-pixel" if lo else "clipped-at-last-pixel" if hi else "inside")
         if c["kind"] == "hdr":
             bump(hdrk, c["variant"] + ":" + ("error" if r["impl"][0].split(" ## ")[0].endswith("Error") else "imported"))
         if c["kind"] == "rt":
@@ -1823,7 +1860,7 @@ def extra_coverage(results):
         "case_kinds": kinds, "error_kinds": errs, "roundtrip_delimiters": delims, "roundtrip_sampling_widths": sws,
         "roundtrip_calibrations": cals, "roundtrip_kymo_routes": routes, "roundtrip_group_sizes": sizes,
         "roundtrip_longest_track": nodes, "roundtrip_single_row_files": single_row, "roundtrip_minimum_durations": mdk,
-        "header_variants": hdrk, "program_ops": opsk, "refinement_spot_places": refk, "dropped_for_margin": 0,
+        "header_variants": hdrk, "sampling_windows": winc, "program_ops": opsk, "refinement_spot_places": refk, "dropped_for_margin": 0,
         "private_ties": {k: dict(v) for k, v in sorted(B.PRIVATE_TIES.items())},
         "private_ties_note": "how often each private pylake member was reached directly / replaced by its public twin / "
                              "rediscovered under another name / unreachable (the case is then skipped as '?')",
